@@ -454,7 +454,7 @@ reg(["X"], H("x::x_insert_sorted", unwind=4, timeout=900, mem_gb=30))
 # `./check <id> --tier deep` still runs them.  See DESIGN.md section 8.
 DEEP = [r"^ser::", r"^cv::", r"^e2e::", r"^d10::", r"^h::", r"^d9::d_v9_two_fields$", r"^w::wr_v9_entry_c2_s2$",
         r"^fixed::error_common$", r"^fixed::v5_count_300$", r"^fixed::v7_count_(31|257)$", r"^k::k_string$",
-        r"^s9::s_v9_template_1f_0f_1f$", r"^w::w_real_(5_stray|10|7_unknown)$", r"^p::p_v9_count_gt_sets(_stray)?$",
+        r"^s9::s_v9_template_1f_0f_1f$", r"^w::w_real_(5_stray|10|7_unknown)$", r"^p::p_v9_count_gt_sets(_stray)?$", r"^p::p_v9_two_sets_tail$",
         r"^s10::s_ipfix_undecodable_data_keeps_template$"]
 
 for _h in _ALL:
